@@ -129,7 +129,7 @@ def pool_model(rep, tier):
     if r.ok:
         raise common.MachineryError("vacuous pool model: the LIFO variant satisfies the contract")
     traces, predicted = [], []
-    for ms, idle in (((2, 5), (3, 5), (2, 0)) if tier == "quick" else ((2, 5), (3, 5), (1, 5), (2, 0))):
+    for ms, idle in (((2, 5), (3, 5), (2, 0), (2, 3), (2, 1)) if tier == "quick" else ((2, 5), (3, 5), (1, 5), (2, 0), (2, 3), (2, 1), (3, 1))):
         r = tlc.run("PoolSeq", cfg_text=cfg(ms, idle), workers=16, timeout=3000)
         if r.error:
             raise common.MachineryError(r.error)
@@ -140,9 +140,11 @@ def pool_model(rep, tier):
         rep.add("transitions", r.generated)
         rows = r.json_lines("EXP")
         rep.add("pool_model_behaviours_exported", len(rows))
-        for row in rows:
-            ev = run_pool_seq(P, row["seq"], ms, idle)
-            traces.append({"h": {"max": ms, "idle": idle, "maxrej": 3}, "ev": ev, "seq": row["seq"]})
+        for ri, row in enumerate(rows):
+            # model time units are whole numbers; on the real pool they are seconds, or half seconds (idle_timeout 2.5 / 1.5 s)
+            scale = 0.5 if (idle and ri % 3 == 0) else 1
+            ev = run_pool_seq(P, row["seq"], ms, idle, scale=scale)
+            traces.append({"h": {"max": ms, "idle": idle, "maxrej": 3}, "ev": ev, "seq": row["seq"], "scale": scale})
             predicted.append(row["ev"])
     if len(traces) < 500:
         raise common.MachineryError("vacuous export from PoolSeq: %d behaviours" % len(traces))
@@ -162,8 +164,9 @@ def pool_model(rep, tier):
     return len(traces)
 
 
-def run_pool_seq(P, seq, maxsize, idle):
-    """one sequence over {G, R<i>, D<i>, T<d>} on a fresh real ObjectPool; returns the recorded events"""
+def run_pool_seq(P, seq, maxsize, idle, scale=1):
+    """one sequence over {G, R<i>, D<i>, T<d>} on a fresh real ObjectPool; returns the recorded events.  scale: one model time
+    unit = `scale` seconds on the pool's clock (idle timeouts need not be whole seconds)"""
     vclock.set_now(9_000_000)
     ids = {}
     ev = []
@@ -181,7 +184,7 @@ def run_pool_seq(P, seq, maxsize, idle):
         ev.append({"e": "create", "t": 1, "o": oid(o)})
         return o
     pool = P.ObjectPool(creator, after_remove=lambda o: ev.append({"e": "close", "t": 1, "o": oid(o)}),
-                        max_size=maxsize, idle_timeout=idle)
+                        max_size=maxsize, idle_timeout=idle * scale)
     mine = []
 
     def snap():
@@ -210,7 +213,7 @@ def run_pool_seq(P, seq, maxsize, idle):
             ev.append({"e": "ret", "t": 1, "m": m, "o": oid(o)})
         else:
             d = int(a[1])
-            vclock.advance(d)
+            vclock.advance(d * scale)
             ev.append({"e": "tick", "d": d})
     return ev
 
